@@ -709,9 +709,11 @@ theorem mergePythonVersion_merr (hvc : VCErrDocumented) {d : Nat}
         · split at h
           · simp [pure, Except.pure] at h
           · split at h
-            · rcases bind_err _ _ _ h with h | ⟨_, _, h⟩
-              · exact parseItemMarker_merr hvc h
+            · split at h
               · simp [pure, Except.pure] at h
+              · rcases bind_err _ _ _ h with h | ⟨_, _, h⟩
+                · exact parseItemMarker_merr hvc h
+                · simp [pure, Except.pure] at h
             · simp [pure, Except.pure] at h
 
 /-- `_merge_single_markers`, given the classification of `_merge_python_version_single_markers` one level
